@@ -33,6 +33,35 @@ __CPROVER_ensures(VP_NO_LOCK_HELD)
 __CPROVER_ensures(g_pipe_close_calls == OLD(g_pipe_close_calls) + 1 && g_pipe_close_last == XR_P->npipe && g_pipe_recv_calls == OLD(g_pipe_recv_calls) && g_sv.mq_put_calls == OLD(g_sv.mq_put_calls))
 ;
 #else
+#ifdef XR_OUTCOME
+#define XR_X_DELIV (g_sv.mq_put_calls == OLD(g_sv.mq_put_calls) + 1)
+#define XR_X_DISC (g_pipe_close_calls == OLD(g_pipe_close_calls) + 1)
+#define XR_X_DROP (g_pipe_recv_calls == OLD(g_pipe_recv_calls) + 1)
+#define XR_HL (OLD(XR_M)->m_header_len)
+/* outcome-keyed statement (see spec.h): exactly one outcome + outcome ==> class, for EVERY ghost byte (g_k, g_b) */
+static void xresp0_recv_cb(void *arg)
+__CPROVER_requires(__CPROVER_is_fresh(arg, sizeof(struct xresp0_pipe)))
+__CPROVER_requires(__CPROVER_is_fresh(XR_S, sizeof(struct xresp0_sock)) && VP_NO_LOCK_HELD)
+__CPROVER_requires(XR_TTL >= 1 && XR_TTL <= XR_TTLMAX)
+__CPROVER_requires(XR_P->aio_recv.a_result == 0 && SV_WIRE_MSG(XR_M) && CH_GHOST_PRE(&XR_M->m_body) && BT_BODY_GHOSTS(XR_M))
+__CPROVER_assigns(XR_P->aio_recv.a_msg, XR_P->aio_putq.a_msg, VP_PROTO_GHOST_LIST, VP_SV_GHOST_LIST, g_free_calls)
+__CPROVER_assigns(*XR_M)
+__CPROVER_frees(XR_M, XR_M->m_body.ch_buf)
+__CPROVER_ensures(VP_NO_LOCK_HELD && XR_P->aio_recv.a_msg == NULL && g_fin_calls == OLD(g_fin_calls))
+/* exactly one of: delivered (handed up once, kept) / disconnected (freed) / dropped (freed, NOT disconnected, receive re-armed) */
+__CPROVER_ensures((XR_X_DELIV && g_pipe_close_calls == OLD(g_pipe_close_calls) && g_pipe_recv_calls == OLD(g_pipe_recv_calls) && !__CPROVER_was_freed(OLD(XR_M)) && g_sv.mq_put_q == XR_S->urq && g_sv.mq_put_aio == &XR_P->aio_putq && g_sv.mq_put_msg == OLD(XR_M) && XR_P->aio_putq.a_msg == OLD(XR_M))
+    || (g_sv.mq_put_calls == OLD(g_sv.mq_put_calls) && XR_X_DISC && g_pipe_close_last == XR_P->npipe && g_pipe_recv_calls == OLD(g_pipe_recv_calls) && __CPROVER_was_freed(OLD(XR_M)))
+    || (g_sv.mq_put_calls == OLD(g_sv.mq_put_calls) && g_pipe_close_calls == OLD(g_pipe_close_calls) && XR_X_DROP && g_pipe_recv_pipe == XR_P->npipe && g_pipe_recv_aio == &XR_P->aio_recv && __CPROVER_was_freed(OLD(XR_M))))
+/* disconnected ==> GARBAGE; dropped ==> TOOMANY */
+__CPROVER_ensures(XR_X_DISC ==> (XR_LEN0 / 4 < (size_t) XR_TTL && BT_NO_END_BELOW(XR_LEN0 / 4)))
+__CPROVER_ensures(XR_X_DROP ==> (XR_LEN0 / 4 >= (size_t) XR_TTL && BT_NO_END_BELOW(XR_TTL)))
+/* delivered ==> ACCEPT: header = [pipe id][w_0..w_n], n + 1 <= ttl words moved, at most 64 bytes, w_n the first word with the high bit; body = the rest */
+__CPROVER_ensures(XR_X_DELIV ==> (XR_HL >= 8 && XR_HL % 4 == 0 && XR_HL <= MSG_HDRCAP && XR_HL / 4 - 1 <= (size_t) XR_TTL && BE32(HDR(OLD(XR_M))) == XR_P->id && OLD(XR_M)->m_pipe == XR_P->id && XR_HL - 4 <= XR_LEN0 && OLD(XR_M)->m_body.ch_len == XR_LEN0 - (XR_HL - 4)))
+__CPROVER_ensures((XR_X_DELIV && g_k < XR_HL - 4) ==> HDR(OLD(XR_M))[4 + g_k] == g_b)
+__CPROVER_ensures(XR_X_DELIV ==> (BT_NO_END_BELOW(XR_HL / 4 - 2) && (g_k == XR_HL - 8 ==> BT_HB(g_b))))
+__CPROVER_ensures((XR_X_DELIV && g_k >= XR_HL - 4 && g_k < XR_LEN0) ==> OLD(XR_M)->m_body.ch_ptr[g_k - (XR_HL - 4)] == g_b)
+;
+#else
 static void xresp0_recv_cb(void *arg)
 __CPROVER_requires(__CPROVER_is_fresh(arg, sizeof(struct xresp0_pipe)))
 __CPROVER_requires(__CPROVER_is_fresh(XR_S, sizeof(struct xresp0_sock)) && VP_NO_LOCK_HELD)
@@ -62,6 +91,7 @@ __CPROVER_ensures((BT_OK(g_n, XR_TTL, XR_LEN0) && g_k % 4 == 0 && g_k / 4 < g_n)
 __CPROVER_ensures(BT_OK(g_n, XR_TTL, XR_LEN0) ==> OLD(XR_M)->m_body.ch_len == XR_LEN0 - 4 * (g_n + 1))
 __CPROVER_ensures((BT_OK(g_n, XR_TTL, XR_LEN0) && g_k >= 4 * (g_n + 1) && g_k < XR_LEN0) ==> OLD(XR_M)->m_body.ch_ptr[g_k - 4 * (g_n + 1)] == g_b)
 ;
+#endif
 #endif
 
 /* Send path: the socket's upper write queue hands over a message whose first
